@@ -10,7 +10,7 @@ from __future__ import annotations
 import time
 
 from vf.checks._values import run_value_case
-from vf.common import Run, main_wrapper, run_pool, seed
+from vf.common import wall_budget, Run, main_wrapper, run_pool, seed
 
 PID = "C01"
 CELLS = ["interval", "triangle", "quadrilateral", "tetrahedron", "hexahedron"]
@@ -143,7 +143,7 @@ def main(tier, replay=None):
         import json
 
         cases = [json.load(open(replay))["replay"]["case"]]
-    budget = 420 if tier == "quick" else 3000
+    budget = wall_budget(tier, 420, 3000)
     results = run_pool("c01", cases, per_case_timeout=240, chunk=3, deadline=time.time() + budget)
     for r in results:
         run.add(r)
